@@ -30,7 +30,7 @@ out.append("\n**Independently seeded changes** (`seeded/<ID>/`: written by fresh
 out.append("| seed | files changed | what was changed (from the seeder's notes) | caught by | note |\n|---|---|---|---|---|")
 for f in sorted(glob.glob(f"{ROOT}/seeded/*/meta.json")):
     m = json.load(open(f))
-    tier = "quick" if m.get("check_quick_violation_lines") else ("thorough" if str(m.get("check_thorough_violation_lines")) not in ("-", "0") else "MISSED")
+    tier = "quick" if (m.get("check_quick_violation_lines") or (m.get("caught") and m.get("caught_by"))) else ("thorough" if str(m.get("check_thorough_violation_lines")) not in ("-", "0") else "MISSED")
     note = m.get("note", "")
     sd = os.path.basename(os.path.dirname(f))
     what = ""
